@@ -31,6 +31,10 @@ def ord4_atomic_store(ctx):
     P = ctx.P
     bodies = [b for b in P.fn_bodies() if calls_matching(b, 'std::fs::rename')]
     ctx.require(bodies, 'ORD-4: no body calls std::fs::rename (anchor of the atomic-replace protocol)')
+    ord4_on_bodies(ctx, bodies)
+
+
+def ord4_on_bodies(ctx, bodies):
     for body in bodies:
         fn = body.name
         cfg = CFG(body)
